@@ -6,11 +6,14 @@ class WrapDict(OrderedDict):
     def __init__(self, other={}):
         self._other = other
         self._mine = OrderedDict()
+        # keys of the wrapped dictionary deleted from this view; the
+        # wrapped dictionary itself is left as it is
+        self._gone = set()
 
     def __getitem__(self, k):
         if k in self._mine:
             return self._mine[k]
-        elif k in self._other:
+        elif k in self._other and k not in self._gone:
             return self._other[k]
         else:
             raise KeyError(
@@ -18,7 +21,7 @@ class WrapDict(OrderedDict):
 
     def items(self):
         for k, v in self._other.items():
-            if k not in self._mine:
+            if k not in self._mine and k not in self._gone:
                 yield k, v
 
         for k, v in self._mine.items():
@@ -26,14 +29,14 @@ class WrapDict(OrderedDict):
 
     def keys(self):
         for k in self._other.keys():
-            if k not in self._mine:
+            if k not in self._mine and k not in self._gone:
                 yield k
 
         for k in self._mine.keys():
             yield k
 
     def __len__(self):
-        return len(self._mine) + len(self._other)
+        return len(list(self.keys()))
 
     def __iter__(self):
         return self.keys()
@@ -47,13 +50,14 @@ class WrapDict(OrderedDict):
 
     def __setitem__(self, k, v):
         self._mine[k] = v
+        self._gone.discard(k)
 
     def __delitem__(self, k):
         if k in self._mine:
             del self._mine[k]
 
         if k in self._other:
-            del self._other[k]
+            self._gone.add(k)
 
     def __repr__(self):
         outf = OrderedDict()
